@@ -46,7 +46,7 @@ var profiles = map[string]Profile{
 	// C15: change sets: repeated keys inside a version, set-then-remove, identical rewrites, no-op versions
 	"C15": {Name: "C15", MinOps: 12, MaxOps: 50, Keys: 6, EmptyVals: true, ObsEvery: 0,
 		Initials: []int64{-1, -1, 1, 7},
-		W:        map[string]int{"set": 40, "rm": 20, "save": 18, "rollback": 2, "reopen": 3, "prune": 3, "changes": 12, "savecs": 5, "replaycs": 3}},
+		W:        map[string]int{"set": 40, "rm": 20, "save": 18, "rollback": 2, "reopen": 3, "prune": 3, "changes": 12, "savecs": 5, "replaycs": 3, "rekeychain": 3}},
 	// C05: crash points of commits, deletions, rollbacks and index builds, small flush thresholds
 	"C05": {Name: "C05", MinOps: 8, MaxOps: 30, Keys: 8, EmptyVals: true, ObsEvery: 0, ToggleFast: true,
 		Initials: []int64{-1, -1, 7},
@@ -288,7 +288,7 @@ func m1gen(name string) func(r *rand.Rand, tier, id string) Case {
 			c.Cfgs = wrapConfigs(r, 1, []int{400, 100000})
 		}
 		if name == "C05" {
-			c.Cfgs = wrapConfigs(r, 1, []int{200, 300, 400, 1000, 100000})
+			c.Cfgs = wrapConfigs(r, 1, []int{100, 128, 160, 200, 300, 400, 1000, 100000})
 		}
 		return c
 	}
